@@ -3,6 +3,7 @@ package main
 // Expression evaluation (code mode with go/types info; contract mode by name resolution).
 
 import (
+	"math/big"
 	"fmt"
 	"go/ast"
 	"go/constant"
@@ -421,6 +422,12 @@ func (ex *Exec) convert(p *Path, v Value, to types.Type, pos token.Pos) Value {
 		if from == "Iface" {
 			// interface -> interface, or type-param values
 			return Value{v.T, to}
+		}
+		if from == "Int" {
+			// integer -> narrower or differently signed integer type: two's complement wrap-around
+			if w := wrapInt(v, to); w != "" {
+				return Value{w, to}
+			}
 		}
 		return Value{v.T, to}
 	}
@@ -841,4 +848,57 @@ func isDigits(s string) bool {
 		}
 	}
 	return true
+}
+
+// intBits: width and signedness of a basic integer type (ok=false for untyped constants and non-integers).
+func intBits(t types.Type) (bits int, signed bool, ok bool) {
+	b, isB := t.Underlying().(*types.Basic)
+	if !isB {
+		return 0, false, false
+	}
+	switch b.Kind() {
+	case types.Int8:
+		return 8, true, true
+	case types.Int16:
+		return 16, true, true
+	case types.Int32:
+		return 32, true, true
+	case types.Int64, types.Int:
+		return 64, true, true
+	case types.Uint8:
+		return 8, false, true
+	case types.Uint16:
+		return 16, false, true
+	case types.Uint32:
+		return 32, false, true
+	case types.Uint64, types.Uint, types.Uintptr:
+		return 64, false, true
+	}
+	return 0, false, false
+}
+
+// wrapInt: the value of converting integer v to integer type `to` when v's type does not fit into it ("" = the
+// conversion is value-preserving).
+func wrapInt(v Value, to types.Type) string {
+	fb, fs, ok1 := intBits(v.Ty)
+	tb, ts, ok2 := intBits(to)
+	if !ok1 || !ok2 {
+		return ""
+	}
+	// source range within target range?
+	if fs == ts && fb <= tb {
+		return ""
+	}
+	if !fs && ts && fb < tb {
+		return ""
+	}
+	pow := func(n int) string {
+		r := new(big.Int).Lsh(big.NewInt(1), uint(n))
+		return r.String()
+	}
+	if ts {
+		half := pow(tb - 1)
+		return "(- (mod (+ " + v.T + " " + half + ") " + pow(tb) + ") " + half + ")"
+	}
+	return "(mod " + v.T + " " + pow(tb) + ")"
 }
